@@ -345,8 +345,95 @@ def run_history_case(p):
     return None
 
 
+def run_reuse_case(p):
+    """C19: one expression object used first as a condition and then as an operand of a comparison: the second use must
+    not inherit the truthiness filter of the first"""
+    from entity_query_language import symbolic_mode, let, an, entity
+    O.reset_registry()
+    rng = random.Random(p['seed'])
+    dom = O.make_domain(rng, 4, falsy=True)
+    attr = rng.choice(['size', 'name', 'flag'])
+    falsy = {'size': 0, 'name': '', 'flag': False}[attr]
+    try:
+        with symbolic_mode():
+            x = let(type_=O.Item, domain=dom)
+            e = getattr(x, attr)
+            q1 = an(entity(x, e))
+        got1 = list(q1.evaluate())
+        want1 = [o for o in dom if getattr(o, attr)]
+        if not O.same_list_by_identity(got1, want1):
+            return {'step': 'as condition', 'attr': attr, 'domain': repr(dom), 'got': repr(got1), 'want': repr(want1)}
+        with symbolic_mode():
+            q2 = an(entity(x, e == falsy))
+        got2 = list(q2.evaluate())
+        want2 = [o for o in dom if getattr(o, attr) == falsy]
+        if not O.same_list_by_identity(got2, want2):
+            return {'step': 'as operand after use as condition', 'attr': attr, 'domain': repr(dom), 'got': repr(got2), 'want': repr(want2)}
+    except Exception as e:  # noqa
+        return {'exception': repr(e), 'trace': traceback.format_exc(limit=4)}
+    return None
+
+
+def run_domain_subquery_case(p):
+    """C09: predicates inside a sub-query that is the domain of a variable, evaluated under each ambient mode"""
+    from contextlib import nullcontext
+    from entity_query_language import symbolic_mode, rule_mode, let, an, entity
+    rng = random.Random(p['seed'])
+    results = {}
+    want = None
+    for label, ambient in (('none', nullcontext), ('query', symbolic_mode), ('rule', rule_mode)):
+        O.reset_registry()
+        r2 = random.Random(p['seed'] + 7)
+        dom = O.make_domain(r2, 5)
+        lim = r2.choice([0, 1, 2])
+        use_cls = r2.random() < 0.5
+        try:
+            with symbolic_mode():
+                c = let(type_=O.Item, domain=dom)
+                sub = an(entity(c, O.IsBig(c, limit=lim) if use_cls else O.is_big_fn(c, limit=lim)))
+                x = let(type_=O.Item, domain=sub)
+                q = an(entity(x, x.name != 'a'))
+            with ambient():
+                got = [dom.index(o) for o in q.evaluate()]
+            results[label] = got
+            want = [i for i, o in enumerate(dom) if o.size > lim and o.name != 'a']
+        except Exception as e:  # noqa
+            return {'ambient': label, 'exception': repr(e), 'trace': traceback.format_exc(limit=4)}
+    if any(v != want for v in results.values()):
+        return {'results_by_ambient_mode': results, 'want': want}
+    return None
+
+
+def run_the_operand_case(p):
+    """C15: the(entity(m, c)) as a comparison operand, c correlated with the enclosing query (unique match per binding)"""
+    from entity_query_language import symbolic_mode, let, an, the, entity
+    O.reset_registry()
+    rng = random.Random(p['seed'])
+    n = 4
+    inner = [O.Item(f"k{i}", i) for i in range(n)]                       # unique names: exactly one match per key
+    outer = [O.Item(f"k{rng.randrange(n)}", rng.randrange(n)) for _ in range(5)]
+    try:
+        with symbolic_mode():
+            y = let(type_=O.Item, domain=outer)
+            m = let(type_=O.Item, domain=inner)
+            q = an(entity(y, y.size == the(entity(m, m.name == y.name)).size))
+        got = list(q.evaluate())
+        want = [o for o in outer if o.size == [k for k in inner if k.name == o.name][0].size]
+    except Exception as e:  # noqa
+        return {'exception': repr(e), 'trace': traceback.format_exc(limit=4)}
+    if not O.same_list_by_identity(got, want):
+        return {'outer': repr(outer), 'got': repr(got), 'want': repr(want)}
+    return None
+
+
 def run_case(p):
     """returns None if the real engine agrees with the reference, else a description of the disagreement."""
+    if p.get('kind') == 'reuse':
+        return run_reuse_case(p)
+    if p.get('kind') == 'domain_subquery':
+        return run_domain_subquery_case(p)
+    if p.get('kind') == 'the_operand':
+        return run_the_operand_case(p)
     if p.get('kind') == 'cache':
         return run_cache_case(p)
     if p.get('kind') == 'history':
